@@ -177,3 +177,8 @@ def _p_complex_multi_super():
 
 register('C01', Probe('complex instance containing an entity with two supertypes', _p_complex_multi_super,
                       masks=dict(pop=['complex_multi_super'])))
+
+
+# masks shared by every check that needs a compiled schema library (the finding itself belongs to C02 "compiles")
+for _p in ('C01',):
+    _m(_p)['schema'].add('selmember_renamed_enum')
